@@ -27,7 +27,7 @@ RUNS = {"quick": SLICES * 4, "thorough": SLICES * 40}
 BUDGET = {"quick": 75, "thorough": 1500}
 RULE = ("cells = algorithm (14 JWS + 21 JWE x 2 enc) x key variant (suitable; suitable with matching use / key_ops; other kty x4; "
         "other curve; EC<->OKP; Ed vs X curves; one octet short / long / empty, 8 or 16 octets short / long (other valid AES sizes); RSA-1024; use of the other kind; key_ops lacking "
-        "the operation; public-only) x operation path (13 JWS incl. RFC 7797 / JSON / JWT, 8 JWE incl. keys attached with "
+        "the operation or empty; public-only) x operation path (13 JWS incl. RFC 7797 / JSON / JWT, 8 JWE incl. keys attached with "
         "add_recipient, ECDH-1PU sender keys); the whole cell space is enumerated in every invocation (240 slices), key material "
         "is re-seeded per run; a case = one call; distinct = distinct (cell, material seed)")
 ASSUMPTIONS = [
@@ -47,7 +47,7 @@ JWS_PATHS = ["jws.serialize_compact", "jws.serialize_json.flat", "jws.serialize_
              "7797.deserialize_compact", "7797.deserialize_json", "jwt.decode"]
 JWE_PATHS = ["jwe.encrypt_compact", "jwe.encrypt_json.arg", "jwe.encrypt_json.attached", "jwt.encode.jwe", "jwe.decrypt_compact",
              "jwe.decrypt_json.flat", "jwe.decrypt_json.general", "jwt.decode.jwe"]
-VARIANTS = ["ok", "ok-use", "ok-ops", "bad-use", "bad-ops", "public-only", "kty-oct", "kty-RSA", "kty-EC", "kty-OKP-Ed", "kty-OKP-X",
+VARIANTS = ["ok", "ok-use", "ok-ops", "bad-use", "bad-ops", "empty-ops", "public-only", "kty-oct", "kty-RSA", "kty-EC", "kty-OKP-Ed", "kty-OKP-X",
             "other-curve", "short", "long", "empty", "short8", "short16", "long8", "long16", "rsa-1024", "sender-other-curve", "sender-other-kty"]
 JWE_OP = {"RSA": ("encrypt", "decrypt"), "KW": ("wrapKey", "unwrapKey"), "PBES2": ("deriveKey", "deriveKey")}
 
@@ -105,6 +105,9 @@ def make_variant(rng: Rng, base: RKey, variant: str, family: str, alg: str, enc:
     if variant == "bad-ops":
         bad = [other_op] if sig else [x for x in ("encrypt", "decrypt", "wrapKey", "unwrapKey", "deriveKey") if x != op][:2]
         return with_params(base, {"key_ops": bad}), needs_private or kty == "oct", (False if ops_judged else None)
+    if variant == "empty-ops":
+        # "key_ops": [] declares that the key may be used for nothing
+        return with_params(base, {"key_ops": []}), needs_private or kty == "oct", (False if ops_judged else None)
     if variant == "public-only":
         if kty == "oct":
             return None
@@ -295,6 +298,9 @@ def run_jwe_cell(node: Node, rng: Rng, alg: str, enc: str, variant: str, path: s
                 return ("ok" if out else "empty", expect, key, private)
             form = "compact" if ("compact" in path or path.startswith("jwt.")) else ("flattened" if path.endswith("flat") else "general")
             pub = base if base.kty == "oct" else base.public()
+            if variant in ("short8", "short16", "long8", "long16") and key.kty == "oct":
+                # a non-conformant sender really used the wrong-size key: only the recipient's size gate can refuse the token
+                pub = RKey("oct", k=key.k)
             bt = rjwe.build(form, dict(hdr) if form == "compact" else {"enc": enc}, pt,
                             [rjwe.Rcpt(alg, pub, None if form == "compact" else {k: v_ for k, v_ in hdr.items() if k != "enc"}, sender)],
                             rng.sub("build"), p2c=3)
